@@ -180,7 +180,8 @@ def gen_case(rng, pki, devices, i, big):
     rv = struct.unpack_from("<I", app, 4)[0]
     r = rng.random()
     if r < 0.25:       # explicit entry point near the reset vector (AppHabSegment.parse accepts a vector in [entry-0x400, entry+len))
-        c["entry"] = rv + rng.choice([0, 0, 2, 0x3F0, -2 if rv - 2 >= start + ils else 0])
+        e = rv + rng.choice([0, 0, 2, 0x3F0, -2])
+        c["entry"] = e if start + ils <= e < start + ils + n else rv   # the entry point stays inside the application
     elif r < 0.29:     # anywhere in the application: parse may not find the application (known finding)
         c["entry"] = start + ils + rng.randrange(0, n)
     room = ils - ivt - 0x40
@@ -454,17 +455,21 @@ def run_case(ck, s, drv, c, pki, wd, reqs):
         real_parse = pr[0]
     else:
         p = pr[1]
-        real_parse = canon_parsed(p)
+        cp = pyres(canon_parsed, p)
+        real_parse = cp[1] if cp[0] == "ok" else cp[0]
         s.expect(p.start_address == start and p.ivt_offset == ivt_off and p.flags == {"plain": 0, "auth": 8, "enc": 0xC}[c["mode"]], cid,
                  "parse: start address / IVT offset / flags", (p.start_address, p.ivt_offset, p.flags))
-        for name, a, b in (("IVT", hab.ivt_segment, p.ivt_segment), ("BDT", hab.bdt_segment, p.bdt_segment), ("DCD", hab.dcd_segment, p.dcd_segment),
-                           ("XMCD", hab.xmcd_segment, p.xmcd_segment), ("CSF", hab.csf_segment, p.csf_segment)):
-            same = (a is None and b is None) or (a is not None and b is not None and a.export() == b.export() and a.offset == b.offset)
-            s.expect(same, cid, f"parse does not give back the {name} segment", None if b is None else (b.offset, b.export()[:16].hex()))
-        pa = p.app_segment
+        from spsdk.image.hab.segments import HabSegment
+        for name, e in (("IVT", HabSegment.IVT), ("BDT", HabSegment.BDT), ("DCD", HabSegment.DCD), ("XMCD", HabSegment.XMCD), ("CSF", HabSegment.CSF)):
+            a, b = hab.get_segment(e), p.get_segment(e)
+            same = pyres(lambda: (a is None and b is None) or (a is not None and b is not None and a.export() == b.export() and a.offset == b.offset))
+            s.expect(same == ("ok", True), cid, f"parse does not give back the {name} segment", None if b is None else (b.offset, same))
+        pa = p.get_segment(HabSegment.APP)
+        ha = hab.get_segment(HabSegment.APP)
         fin = "C07-parse-app-offset-guess" if not heuristic_ok else None
-        s.expect(pa.offset == app_off and pa.binary[:len(hab.app_segment.binary)] == hab.app_segment.binary and not any(pa.binary[len(hab.app_segment.binary):]),
-                 cid, "parse does not give back the application (up to the zero fill before the CSF)", (pa.offset, len(pa.binary)), (app_off, len(app16)), finding=fin)
+        s.expect(pa is not None and pa.offset == app_off and pa.binary[:len(ha.binary)] == ha.binary and not any(pa.binary[len(ha.binary):]),
+                 cid, "parse does not give back the application (up to the zero fill before the CSF)", None if pa is None else (pa.offset, len(pa.binary)),
+                 (app_off, len(app16)), finding=fin)
         if heuristic_ok:
             s.expect(pyres(p.export) == ("ok", img), cid, "parse(export).export() differs from export()")
 
@@ -474,7 +479,7 @@ def run_case(ck, s, drv, c, pki, wd, reqs):
     if auth:
         try:
             sig_csf, sig_data, md_csf, md_data = check_csf(s, cid, c, img, csf_off, e_self, e_csf, app_off, app16, pki, hab, len(padded))
-        except (AssertionError, struct.error, ValueError, KeyError, IndexError, TypeError) as exc:
+        except Exception as exc:  # noqa: BLE001  (own readers / cryptography / asn1crypto on bytes the real code produced)
             s.expect(False, cid, f"CSF of the exported image is not readable: {type(exc).__name__}: {exc}"[:300])
 
     # ------------------------------------------------------------------ model requests
@@ -704,7 +709,7 @@ def run(ck):
               "configurations with both DCD and XMCD (both at IVT+0x40: SPSDK overlays them silently) and CSFs larger than CSF_SIZE are outside the modelled domain")
     kinds = ["rsa4096", "p256", "p384", "p521"] if ck.quick else ["rsa4096", "rsa2048", "p256", "p384", "p521"]
     pki = Pki(rng, scratch, kinds)
-    n = ck.budget(len(devices) * 3 + 12, 6000)
+    n = ck.budget(len(devices) * 3 + 12, 2500)
     big = ck.budget(20000, 65536)
     s = ck.stream("images", f"{n} containers: every (family, boot device) of the database x plain/authenticated/encrypted first, then random; application sizes "
                   "{16, 17, 31, 32, 100, 4095, 4096, 4097, 8191, random}; DB or explicit IVT offset / initial load size; +-DCD, +-XMCD (interface 0/1, instance 0..2); "
